@@ -136,8 +136,13 @@ fn check_source(cfg: &Cfg, hl: &mut Highlighter, parent_lang: &tree_sitter::Lang
         match *e {
             HighlightEvent::HighlightStart(h) => {
                 stack.push(h); any = true; open_at.push(pos);
-                // every highlighted node of these configurations is a leaf, so highlights never nest
-                if stack.len() > 1 { fail(res, "highlights-nest-although-only-leaves-are-highlighted", format!("at byte {} the open highlights are {:?}", pos, stack.iter().map(|h| cfg.names.get(h.0).copied().unwrap_or("?")).collect::<Vec<_>>())); }
+                // every highlighted node of these configurations is a leaf, so highlights never nest - except that a token of a
+                // COMBINED injection may run across the gap between two content nodes (its halves are adjacent in the injected
+                // layer's text), and the parent layer's own highlights inside the gap then open below it
+                let is_arith = |h: &Highlight| cfg.names.get(h.0).map(|n| n.starts_with("arith")).unwrap_or(false);
+                let in_gap = !content.iter().any(|&(s, e2)| s <= pos && pos < e2) && content.iter().any(|&(_, e2)| e2 <= pos) && content.iter().any(|&(s, _)| s > pos);
+                let seam_token = cfg.name == "tmpl-combined" && stack.len() == 2 && is_arith(&stack[0]) && !is_arith(&stack[1]) && in_gap;
+                if stack.len() > 1 && !seam_token { fail(res, "highlights-nest-although-only-leaves-are-highlighted", format!("at byte {} the open highlights are {:?}", pos, stack.iter().map(|h| cfg.names.get(h.0).copied().unwrap_or("?")).collect::<Vec<_>>())); }
             }
             HighlightEvent::HighlightEnd => {
                 let Some(h) = stack.pop() else { fail(res, "highlight-end-without-start", format!("at byte {}", pos)); return; };
@@ -157,7 +162,9 @@ fn check_source(cfg: &Cfg, hl: &mut Highlighter, parent_lang: &tree_sitter::Lang
                     // between two content nodes, so only its start and its end have to lie in content
                     let inside_one = content.iter().any(|&(s, e2)| s <= start && end <= e2);
                     let ends_inside = content.iter().any(|&(s, e2)| s <= start && start < e2) && content.iter().any(|&(s, e2)| s < end && end <= e2);
-                    if !(inside_one || (cfg.name == "tmpl-combined" && ends_inside)) { fail(res, "injected-highlight-outside-content", format!("span {}..{} is highlighted by the injected language but the injection content nodes are {:?}", start, end, content)); }
+                    // (a span of the PARENT layer inside the gap that a seam-spanning token of a combined injection runs across)
+                    let gap_span = cfg.name == "tmpl-combined" && !content.iter().any(|&(s, e2)| start < e2 && end > s) && content.iter().any(|&(_, e2)| e2 <= start) && content.iter().any(|&(s, _)| s >= end);
+                    if !(inside_one || (cfg.name == "tmpl-combined" && ends_inside) || gap_span) { fail(res, "injected-highlight-outside-content", format!("span {}..{} is highlighted by the injected language but the injection content nodes are {:?}", start, end, content)); }
                 }
                 pos = end;
             }
